@@ -147,7 +147,7 @@ func c11() []*Ob {
 					for _, l := range CallsIn(fn, Callee("strings.ToLower")) {
 						v, found := BoolFact(FactsAtInstr(l.(ssa.Instruction)), func(x ssa.Value) bool {
 							p, ok := x.(*ssa.Parameter)
-							return ok && p.Name() == "sensitive"
+							return ok && ParamName(p) == "sensitive"
 						})
 						if found && !v {
 							c.Site(l.Pos(), "query terms are lower-cased only when not case-sensitive")
@@ -172,7 +172,7 @@ func c11() []*Ob {
 							isFlag := false
 							switch x := f.Cond.(type) {
 							case *ssa.Parameter:
-								isFlag = strings.Contains(strings.ToLower(x.Name()), "sensitive")
+								isFlag = strings.Contains(strings.ToLower(ParamName(x)), "sensitive")
 							case *ssa.UnOp:
 								if _, fname, _, ok := FieldOf(x.X); ok {
 									isFlag = strings.Contains(strings.ToLower(fname), "sensitive")
@@ -228,7 +228,7 @@ func c11() []*Ob {
 							if u, isU := f.Cond.(*ssa.UnOp); isU && IsFieldAddr(u.X, "tokenizer.TextTokenizer", "caseSensitive") && !f.Val {
 								ok = true
 							}
-							if p, isP := f.Cond.(*ssa.Parameter); isP && p.Name() == "isCaseSensitive" && !f.Val {
+							if p, isP := f.Cond.(*ssa.Parameter); isP && ParamName(p) == "isCaseSensitive" && !f.Val {
 								ok = true
 							}
 						}
@@ -318,7 +318,7 @@ func c11() []*Ob {
 							}
 							args := call.Common().Args
 							for i, p := range callee.Params {
-								if p.Name() == "caseSensitive" && i < len(args) {
+								if ParamName(p) == "caseSensitive" && i < len(args) {
 									consumers++
 									if !trueUnder(args[i], 0) {
 										bad++
